@@ -3,10 +3,10 @@
 P="$1"; shift
 cd /repo || exit 9
 if ! git diff --quiet; then echo "REPO DIRTY - abort"; exit 9; fi
-git apply "$P" || { echo "PATCH DOES NOT APPLY: $P"; exit 8; }
+git apply "$P" 2>/dev/null || patch -p1 --fuzz=3 -s --no-backup-if-mismatch < "$P" || { echo "PATCH DOES NOT APPLY: $P"; git checkout -- .; git clean -fdq; exit 8; }
 for id in "$@"; do
   out=$(cd /verif && VERIF_EVIDENCE_DIR=/tmp/seed_evidence bin/vcheck "$id" --tier ${TIER:-quick} 2>&1); rc=$?
   echo "== $id rc=$rc"
   echo "$out" | grep -E "VIOLATION|ANALYSIS-ERROR|^\[$id\] R-" | head -${LINES_MAX:-6}
 done
-git -C /repo checkout -- . && git -C /repo status --short | head -3
+git -C /repo checkout -- . && git -C /repo clean -fdq && git -C /repo status --short | head -3
